@@ -1030,6 +1030,32 @@ pub fn run(out: &mut Out, tier: &str, seed: u64, prop: &str) {
                         }
                     }
                 }
+                // complementary operators against the SAME literal under DIFFERENT keys / names: they look like a term and
+                // its negation only if the key is ignored — `A or B`, `A or (B and guard)`, `(A and guard) or B`
+                {
+                    let guard = Term::S(12, 0, "nt".into());
+                    let mut pairs: Vec<(Term, Term)> = Vec::new();
+                    for (k1, k2) in [(0usize, 1usize), (1, 0), (0, 2), (2, 0)] {
+                        for lit in ["3.8", "3.10", "2"] {
+                            for (o1, o2) in [(5usize, 2usize), (2, 5), (4, 3), (3, 4), (0, 1), (1, 0)] {
+                                pairs.push((Term::V(k1, o1, lit.into()), Term::V(k2, o2, lit.into())));
+                            }
+                        }
+                    }
+                    for (k1, k2) in [(1usize, 12usize), (12, 1), (3, 8), (0, 9)] {
+                        for (o1, o2) in [(0usize, 1usize), (1, 0), (3, 4), (2, 5), (6, 7), (8, 9)] {
+                            pairs.push((Term::S(k1, o1, "posix".into()), Term::S(k2, o2, "posix".into())));
+                        }
+                    }
+                    pairs.push((Term::X(false, "dev".into()), Term::X(true, "test".into())));
+                    pairs.push((Term::X(true, "dev".into()), Term::X(false, "test".into())));
+                    pairs.push((Term::VI(0, false, vec!["3.8".into(), "3.9".into()]), Term::VI(1, true, vec!["3.8".into(), "3.9".into()])));
+                    for (a, b) in pairs {
+                        shapes.push(Term::or(a.clone(), b.clone()));
+                        shapes.push(Term::or(a.clone(), Term::and(b.clone(), guard.clone())));
+                        shapes.push(Term::or(Term::and(a, guard.clone()), b));
+                    }
+                }
                 // `extra` comparisons whose right-hand side is not a valid extra name are kept verbatim: the same quote
                 // characters there, under both operators, alone and inside and/or
                 for val in ["it's", "O'Neil", "x\"y", "a'", "'", "\"", "a' or extra == 'b", "Not An Extra!", "a b"] {
